@@ -121,12 +121,30 @@ class ChoiceRNG(object):
         return np.int64(low + k)
 
     def choice(self, a, size=None, replace=True, p=None):
-        if p is not None:
-            raise ChoiceModelError("choice(p=) not modelled")
         if isinstance(a, (int, np.integer)):
             arr = np.arange(int(a))
         else:
             arr = np.asarray(a)
+        if p is not None:
+            # categorical draws with given probabilities (numpy checks the normalisation to sqrt(eps))
+            pv = np.asarray(p, dtype=float)
+            if pv.ndim != 1 or len(pv) != len(arr):
+                raise ValueError("'a' and 'p' must have same size")
+            if np.any(np.isnan(pv)) or np.any(pv < 0):
+                raise ValueError("probabilities are not non-negative")
+            tot = float(pv.sum())
+            self.max_norm_dev = max(self.max_norm_dev, abs(tot - 1.0))
+            if abs(tot - 1.0) > 1.5e-8:
+                raise ValueError("probabilities do not sum to 1")
+            probs = [float(x) / tot for x in pv]
+            if size is None:
+                return arr[self._choose_sparse(probs, ("choice-p", len(probs)))]
+            if not replace:
+                raise ChoiceModelError("choice(p=, replace=False) not modelled")
+            size = int(size)
+            if size > 6:
+                raise ChoiceModelError("choice(p=, size>6) not modelled (too many outcomes)")
+            return arr[[self._choose_sparse(probs, ("choice-p", len(probs))) for _ in range(size)]]
         if size is None:
             if len(arr) == 0:
                 raise ValueError("a cannot be empty unless no samples are taken")
@@ -139,6 +157,9 @@ class ChoiceRNG(object):
             raise ValueError("Cannot take a larger sample than population when replace is False")
         if size == 0:
             return arr[:0].copy()
+        if size == len(arr) and size > 1:
+            # a sample of everything without replacement is a random order: exact law of a uniform permutation
+            return self.permutation(arr)
         if self.ordered_subsets:
             remaining = list(range(len(arr)))
             picked = []
@@ -179,9 +200,26 @@ class ChoiceRNG(object):
             x[i] = out[i]
 
     def permutation(self, x):
-        y = list(range(x)) if isinstance(x, (int, np.integer)) else list(x)
+        if isinstance(x, (int, np.integer)):
+            y = list(range(int(x)))
+            self.shuffle(y)
+            return np.asarray(y, dtype=np.int64)
+        src = np.asarray(x)
+        y = list(src)
         self.shuffle(y)
-        return np.asarray(y)
+        out = np.empty(len(y), dtype=src.dtype)
+        for i, v in enumerate(y):
+            out[i] = v
+        return out
+
+    def _choose_sparse(self, probs, tag):
+        """_choose over the alternatives with positive probability only (index into the full list returned)."""
+        support = [i for i, q in enumerate(probs) if q > 0.0]
+        if not support:
+            raise ChoiceModelError("categorical draw without a positive alternative")
+        if len(support) == 1:
+            return support[0]
+        return support[self._choose([probs[i] for i in support], tag)]
 
     def multinomial(self, n, pvals, size=None):
         if size is not None:
